@@ -52,7 +52,7 @@ def main():
     src0 = '''package sm2
 import ("testing"; "bytes")
 type verifReader struct{ b []byte; used int }
-func (r *verifReader) Read(p []byte) (int, error) { n := copy(p, r.b[r.used:]); r.used += n; return n, nil }
+func (r *verifReader) Read(p []byte) (int, error) { if r.used >= len(r.b) { for i := range p { p[i] = 0x5a }; r.used += len(p); return len(p), nil }; n := copy(p, r.b[r.used:]); r.used += n; return n, nil }
 func TestVerifReplay(t *testing.T) {
 	cases := []struct{ d, e, k, r, s, px, py []byte }{
 %s
@@ -71,7 +71,7 @@ func TestVerifReplay(t *testing.T) {
     elif ok0 is False:
         ck.record('signverify[special-vectors]', 'violated', 'a signature produced by the library for a special key / digest / nonce does not verify (or the call panics): ' + (out0 or '')[-300:].replace('\n', ' '))
         ck.violation('special-vectors', 'sign-then-verify fails on the real build for a special key (leading zero bytes, short encoding, extreme digest or nonce)', path0)
-    eng.deadline = time.time() + (900 if not thorough else 3 * 3600)
+    eng.deadline = time.time() + (120 if ok0 is False else (900 if not thorough else 3 * 3600))     # short budget once a violation is established
 
     def analyse(e, d, klen, ev, rd, out, verify_fn, extra_args, info):
         """out: outcome of the signing call; then the matching verification is executed on the same path"""
@@ -218,7 +218,7 @@ func TestVerifReplay(t *testing.T) {
         src = '''package sm2
 import "testing"
 type verifReader struct{ b []byte; used int }
-func (r *verifReader) Read(p []byte) (int, error) { n := copy(p, r.b[r.used:]); r.used += n; return n, nil }
+func (r *verifReader) Read(p []byte) (int, error) { if r.used >= len(r.b) { for i := range p { p[i] = 0x5a }; r.used += len(p); return len(p), nil }; n := copy(p, r.b[r.used:]); r.used += n; return n, nil }
 func TestVerifReplay(t *testing.T) {
 	rd := &verifReader{b: %s}
 	priv := %s
@@ -270,7 +270,7 @@ func TestVerifReplay(t *testing.T) {
     src = '''package sm2
 import ("testing"; "bytes")
 type verifReader struct{ b []byte; used int }
-func (r *verifReader) Read(p []byte) (int, error) { n := copy(p, r.b[r.used:]); r.used += n; return n, nil }
+func (r *verifReader) Read(p []byte) (int, error) { if r.used >= len(r.b) { for i := range p { p[i] = 0x5a }; r.used += len(p); return len(p), nil }; n := copy(p, r.b[r.used:]); r.used += n; return n, nil }
 func TestVerifReplay(t *testing.T) {
 	cases := []struct{ d, e, k, r, s, px, py []byte }{
 %s
